@@ -70,6 +70,24 @@ PROPS = {
         "assumptions": COMMON_ASSUME + ["exec termination of the recursive evaluator is not claimed (exec_allows_no_decreases_clause); only the slice loops",
                                          "stack depth is not modelled by Verus or Kani: the no-stack-exhaustion clause is bounded only (deep probes), with two open known findings"],
     },
+    "C12": {
+        "level": "other",
+        "verus_policy": "own",
+        "own_clauses": ["js_path_process.post.eval", "js_path.post.eval", "js_path_vals.post.projection", "js_path_path.post.projection",
+                        "JsonPath::query.post.projection", "JsonPath::query_only_path.post.projection", "JsonPath::query_with_path.post.eval"],
+        "explanation": "Mixed. PROVED (Verus): every public entry point returns a position-wise projection of ONE mathematical function of its arguments: "
+                       "js_path_process: qnodes(result) == impl_query(query, document); js_path: the same for parsed(text); js_path_vals / js_path_path and the "
+                       "trait methods query / query_only_path / query_with_path: same length, i-th value == impl_query(..)[i].inner, i-th path == impl_query(..)[i].path. "
+                       "A postcondition `result == F(arguments)` with F a spec function is what history independence means for one call: whatever was evaluated "
+                       "before, the call returns F(arguments); and evaluating a query parsed once equals parsing at every call because both equal impl_query(parsed(text), doc). "
+                       "SIDE CONDITION (mechanical scan of /repo/src on every run): no global or interior-mutable state (static, thread_local, Cell/RefCell/Mutex/Atomic/Once*, "
+                       "unsafe, clocks, environment, randomness) in the non-test code - with such state a functional contract on an assumed unit could be false. "
+                       "BOUNDED (native group `purity`): the same (text, document) pairs first, again in the opposite and in a shuffled order, immediately repeated, through a query "
+                       "parsed once, and from 8 threads sharing the parsed query and the document; plus the api_agree clauses of the through-the-parser groups.",
+        "assumptions": COMMON_ASSUME + ["parse_json_path is a function of its text (assumed unit: `parsed` is an uninterpreted spec function)",
+                                        "the regex engine and Queryable::extension_custom are functions of their arguments (assumed units)",
+                                        "thread safety itself (Send/Sync, absence of data races) is rustc's guarantee for safe code, checked only by the scan for `unsafe` and by the bounded 8-thread run"],
+    },
     "C10": {
         "level": "other",
         "explanation": "Mixed. PROVED (Verus): count (number of nodes, 0 for none), value (the single node or nothing), length (dispatch by kind; "
@@ -133,6 +151,7 @@ def deps_of(u, units: dict, repo) -> set:
 
 # where the callee closure of a property stops: the callee is another property's business
 STOP_AT = {
+    "C12": {"JpQuery::process", "parse_json_path"},
     "C02": {"Filter::filter_item"},
     "C03": {"Filter::filter_item"},
     "C04": {"TestFunction::process", "process_index", "process_key"},
@@ -190,9 +209,43 @@ def canaries(prop: str, tier: str, units: dict, unames: list[str]) -> list:
     return res
 
 
+GLOBAL_STATE = [
+    (r"\bstatic\s+(mut\s+)?[A-Z_][A-Z0-9_]*\s*:", "static item"), (r"\bthread_local\s*!", "thread_local!"), (r"\blazy_static\s*!", "lazy_static!"),
+    (r"\b(OnceCell|OnceLock|LazyLock|LazyCell|Lazy)\b", "once/lazy cell"), (r"\b(RefCell|Cell|UnsafeCell)\s*(<|::)", "interior mutability"),
+    (r"\b(Mutex|RwLock|Condvar)\b", "lock"), (r"\bAtomic[A-Z]\w*\b", "atomic"), (r"\bunsafe\b", "unsafe"),
+    (r"\b(SystemTime|Instant)\b", "clock"), (r"\bstd\s*::\s*env\b|\benv\s*::\s*var\b", "environment"), (r"\brand\s*::|\bthread_rng\b|\bRandomState\b", "randomness"),
+]
+
+
+def scan_global_state(run):
+    """side condition of the C12 argument: the non-test code of the crate holds no state that outlives a call"""
+    import glob, os
+    from .rust_text import strip_comments
+    hits, files = [], 0
+    for path in sorted(glob.glob(os.path.join(run.repo.root, "src", "**", "*.rs"), recursive=True)):
+        src = strip_comments(open(path).read())
+        cut = src.find("#[cfg(test)]")
+        code = src if cut < 0 else src[:cut]
+        files += 1
+        for rx, what in GLOBAL_STATE:
+            for m in re.finditer(rx, code):
+                hits.append(f"{os.path.relpath(path, run.repo.root)}:{code.count(chr(10), 0, m.start()) + 1}: {what} `{m.group(0).strip()}`")
+    run.obligations += 1
+    run.unit_reports.append({"unit": "crate (src/**/*.rs, non-test code)", "backend": "scan", "status": "proved" if not hits else "undecided",
+                             "obligations": 1, "discharged": 0 if hits else 1, "files": files, "patterns": [w for _, w in GLOBAL_STATE], "hits": hits[:20]})
+    if hits:
+        run.undecided.append("purity.no_global_state: the crate now holds state that outlives a call, so `result == F(arguments)` on the units that touch it "
+                             "no longer implies history independence; not a violation by itself: " + "; ".join(hits[:5]))
+    else:
+        run.discharged += 1
+        run.samples.append({"obligation": "purity.no_global_state", "unit": "crate", "backend": "scan", "result": "discharged"})
+
+
 def execute(run):
     unames = units_for(run.prop, run.units, run.repo)
     run.run_verus_units(unames)
     from . import kani, native
+    if run.prop == "C12":
+        scan_global_state(run)
     kani.run_for(run)
     native.run_for(run)
